@@ -116,6 +116,12 @@ func LoadIndex(idx index.Index, r io.Reader, opts ...Option) error {
 
 	records := make([]index.Record, 0)
 	for {
+		// A CARv2 payload may end right after its header (no sections); do not read
+		// past it into the index padding or the index.
+		if dataSize != 0 && sectionOffset >= dataSize {
+			break
+		}
+
 		// Read the section's length.
 		sectionLen, err := varint.ReadUvarint(reader)
 		if err != nil {
